@@ -1098,6 +1098,89 @@ def driver_limits(ctx: Ctx, loop: steploop.StepLoop) -> List[Body]:
                                 "script": f"fixed{seg}"}
                         run_session(loop, bd, sess, G.fixed_segments(bd.body, seg), rng)
                 bodies.append(bd)
+    bodies += limits_in_shapes(ctx, loop, rng)
+    return bodies
+
+
+def shaped(parts: List[dict], shape: str) -> dict:
+    """Put the parts under test into a flat body or inside a nested multipart part (depth 2)."""
+    if shape == "flat-mixed":
+        return {"kind": "mixed", "boundary": "lim", "parts": parts}
+    inner = {"kind": "form" if shape == "nest-form" else "mixed", "boundary": "inn", "parts": parts}
+    return {"kind": "mixed", "boundary": "lim",
+            "parts": [leaf(b"pre", headers=[("X-Pre", "1")]), {"inner": inner}, leaf(b"post")]}
+
+
+def limits_in_shapes(ctx: Ctx, loop: steploop.StepLoop, rng: random.Random) -> List[Body]:
+    """The same three limits wherever a part can sit: the limits configured on the outer reader
+    must hold for parts inside a nested multipart/* part (depth 2) exactly as for flat parts, for
+    every read API that enforces them; the reference computes the limit point through the nesting.
+    Also: the size limit applies to the decoded size of read(decode=True)."""
+    bodies: List[Body] = []
+    z = bytes([FILL])
+    nests = ("nest-mixed", "nest-form")
+    segs = ctx.pick([7, 97], [1, 7, 97, 4096])
+
+    def drive(bd: Body, apis: Sequence[str], mfs: int = 8190, mh: int = 128, cms: int = -1,
+              seg_list: Sequence[int] = segs) -> None:
+        for seg in seg_list:
+            for api in apis:
+                sess = {"api": api, "strict": False, "chunk": 8192, "mfs": mfs, "mh": mh, "cms": cms,
+                        "script": f"fixed{seg}"}
+                run_session(loop, bd, sess, G.fixed_segments(bd.body, seg), rng)
+        sess = {"api": apis[0], "strict": False, "chunk": 8192, "mfs": mfs, "mh": mh, "cms": cms, "script": "whole"}
+        run_session(loop, bd, sess, [bd.body], rng)
+
+    # (a) header line length inside a nested part
+    for mfs in ctx.pick([64], [32, 64, 8190]):
+        for delta in ctx.pick((-5, -3, 1, 3, 500), (-40, -5, -3, -2, -1, 0, 1, 2, 3, 10, 500, 20000)):
+            vlen = mfs + delta - len("X-Long: ")
+            if vlen < 1:
+                continue
+            for shape in nests:
+                parts = [leaf(b"one", name="a"), leaf(b"two", name="b", headers=[("X-Long", (z * vlen).decode())]),
+                         leaf(b"three", name="c")]
+                bd = write_body(loop, shaped(parts, shape), f"lim:nfield:{mfs}:{delta}:{shape}")
+                if bd.body:
+                    drive(bd, ("read", "chunks"), mfs=mfs)
+                bodies.append(bd)
+    # (b) number of header lines inside a nested part
+    for mh in ctx.pick([4], [1, 4, 16, 128]):
+        for delta in (-1, 0, 1, 2, 40):
+            nh = mh + delta - 2
+            if nh < 0:
+                continue
+            for shape in nests:
+                hdrs = [(f"X-H{i}", f"v{i}") for i in range(nh)]
+                parts = [leaf(b"one", name="a"), leaf(b"two", name="b", headers=hdrs), leaf(b"3", name="c")]
+                bd = write_body(loop, shaped(parts, shape), f"lim:nheaders:{mh}:{delta}:{shape}")
+                if bd.body:
+                    drive(bd, ("read", "release"), mh=mh)
+                bodies.append(bd)
+    # (c) client_max_size for a part inside a nested part: every API that enforces it
+    for cms in ctx.pick([10, 4096], [1, 10, 1000, 4096, 65536]):
+        for delta in (-1, 0, 1, 5000, 200000):
+            n = cms + delta
+            if n < 0 or (ctx.quick and delta == 5000):
+                continue
+            for shape in nests:
+                parts = [leaf(b"s", name="s"), leaf(z * n, name="f"), leaf(b"t", name="t")]
+                bd = write_body(loop, shaped(parts, shape), f"lim:ncms:{cms}:{delta}:{shape}")
+                if bd.body:
+                    drive(bd, ("read", "read_decode"), cms=cms, seg_list=[97, 4096] if len(bd.body) < 100000 else [4096])
+                bodies.append(bd)
+    # (d) the decoded size counts as well: a small compressed wire that inflates beyond the limit
+    for cms in ctx.pick([1000], [100, 1000, 65536]):
+        for n in (cms - 1, cms, cms + 1, 20 * cms):
+            for ce in ("gzip", "deflate"):
+                for shape in ("flat-mixed", "nest-mixed"):
+                    if ctx.quick and shape == "flat-mixed" and ce == "deflate":
+                        continue
+                    parts = [leaf(z * n, ce=ce), leaf(b"t")]
+                    bd = write_body(loop, shaped(parts, shape), f"lim:dcms:{cms}:{n}:{ce}:{shape}")
+                    if bd.body:
+                        drive(bd, ("read_decode", "read"), cms=cms, seg_list=[13])
+                    bodies.append(bd)
     return bodies
 
 
